@@ -10,7 +10,10 @@ import (
 type ev struct {
 	c   *mctx
 	cur pset
+	ss  []*stm // the same micro-operations in structured form
 }
+
+func (e *ev) stm() *stm { return seqS(e.ss...) }
 
 func (c *mctx) newEv() *ev { return &ev{c: c, cur: unit()} }
 
@@ -22,6 +25,7 @@ func (e *ev) emit(m mop) {
 		out[i] = append(q, m)
 	}
 	e.cur = out
+	e.ss = append(e.ss, opS(m))
 }
 
 func (e *ev) exprs(xs []ast.Expr) {
@@ -511,5 +515,7 @@ func (e *ev) inline(call *ast.CallExpr, callee *ast.FuncDecl) {
 		}
 		stripped = append(stripped, p[:len(p)-1])
 	}
-	e.cur = c.seqAt(call.Pos(), e.cur, dedup(stripped))
+	stripped = dedup(stripped)
+	e.cur = c.seqAt(call.Pos(), e.cur, stripped)
+	e.ss = append(e.ss, pathsToStm(stripped))
 }
